@@ -183,6 +183,38 @@ def build_operator(od, domain):
     if kind == 'divergence':
         return odl.Divergence(domain, method=od.get('method', 'forward'),
                               pad_mode=od.get('pad_mode', 'constant'))
+    if kind == 'partial':
+        return odl.PartialDerivative(domain, int(od['axis']),
+                                     method=od.get('method', 'forward'),
+                                     pad_mode=od.get('pad_mode', 'constant'))
+    if kind == 'laplacian':
+        return odl.Laplacian(domain, pad_mode=od.get('pad_mode', 'constant'))
+    if kind == 'sqmatrix':
+        # square matrix on a 1d tensor space (same-space operator)
+        n = domain.size
+        M = matrix_from_svals(n, n, od['svals'], od['seed'])
+        return odl.MatrixOperator(M, domain=domain, range=domain)
+    if kind == 'sum':
+        ops = [build_operator(o, domain) for o in od['ops']]
+        out = ops[0]
+        for o in ops[1:]:
+            out = out + o
+        return out
+    if kind == 'comp':
+        # ops[0] o ops[1] o ...  (all same-space here)
+        ops = [build_operator(o, domain) for o in od['ops']]
+        out = ops[-1]
+        for o in reversed(ops[:-1]):
+            out = o * out
+        return out
+    if kind == 'pso_square':
+        # full block operator [[A, B], [C, D]] on X x X
+        if not isinstance(domain, ProductSpace) or \
+                not domain.is_power_space:
+            raise HarnessError('pso_square needs a power-space domain')
+        rows = [[None if o is None else build_operator(o, domain[0])
+                 for o in row] for row in od['blocks']]
+        return odl.ProductSpaceOperator(rows, domain=domain, range=domain)
     if kind == 'broadcast':
         return odl.BroadcastOperator(*[build_operator(o, domain)
                                        for o in od['ops']])
@@ -1045,7 +1077,8 @@ def range_class(od, dom):
     if kind in ('matrix', 'posmatrix'):
         m = len(od['data']) if 'data' in od else int(od['m'])
         return {'t': 'leaf', 'n': m, 'ndim': 1, 'kind': 'tensor'}
-    if kind in ('identity', 'scaling', 'multiply'):
+    if kind in ('identity', 'scaling', 'multiply', 'partial', 'laplacian',
+                'sqmatrix', 'sum', 'comp', 'pso_square'):
         return dom
     if kind == 'gradient':
         return {'t': 'power', 'k': dom['ndim'], 'base': dom}
@@ -1092,3 +1125,65 @@ def func_on_class_st(draw, cls, kinds=ALL_KINDS, sepsum=True):
     if not leaf and fd.get('scalar_bounds'):
         fd['scalar_bounds'] = False
     return fd
+
+
+LAPL_PADS = ['constant', 'symmetric', 'periodic', 'order0']
+
+
+@st.composite
+def stencil_op_st(draw, sd, compound=True):
+    """Same-space finite-difference operator on the discretized space sd:
+    PartialDerivative, Laplacian, or a sum / composition of them."""
+    nd = len(sd['shape'])
+
+    def one():
+        if draw(st.integers(0, 2)) == 0:
+            return {'kind': 'laplacian',
+                    'pad_mode': draw(st.sampled_from(LAPL_PADS))}
+        return {'kind': 'partial', 'axis': draw(st.integers(0, nd - 1)),
+                'method': draw(st.sampled_from(GRAD_METHODS)),
+                'pad_mode': draw(st.sampled_from(GRAD_PADS))}
+
+    if compound and draw(st.integers(0, 3)) == 0:
+        second = draw(st.one_of(st.just(None), simple_op_st()))
+        return {'kind': draw(st.sampled_from(['sum', 'comp'])),
+                'ops': [one(), second if second is not None else one()]}
+    return one()
+
+
+@st.composite
+def square_block_op_st(draw, base_sd):
+    """Full block operator [[A, B], [C, D]] on X x X (X = base_sd), off-
+    diagonal blocks present."""
+    def blk():
+        if base_sd['kind'] == 'tensor':
+            if draw(st.integers(0, 3)) == 0:
+                return draw(simple_op_st())
+            n = base_sd['shape'][0]
+            return {'kind': 'sqmatrix',
+                    'svals': draw(svals_st(n, [1.0, 3.0, 10.0])),
+                    'seed': draw(st.integers(0, 2 ** 20))}
+        if draw(st.integers(0, 2)) == 0:
+            return draw(simple_op_st())
+        return draw(stencil_op_st(base_sd, compound=False))
+
+    rows = [[blk(), blk()], [blk(), blk()]]
+    if draw(st.integers(0, 3)) == 0:
+        rows[draw(st.integers(0, 1))][draw(st.integers(0, 1))] = None
+        if all(o is None for o in rows[0]) or \
+                all(o is None for o in rows[1]):
+            rows = [[blk(), blk()], [blk(), blk()]]
+    return {'kind': 'pso_square', 'blocks': rows}
+
+
+def op_shape_stratum(od):
+    """'L=stencil-square' / 'L=block-square' / None for an operator."""
+    k = od['kind']
+    if k == 'pso_square':
+        return 'L=block-square'
+    if k in ('partial', 'laplacian'):
+        return 'L=stencil-square'
+    if k in ('sum', 'comp') and any(
+            o['kind'] in ('partial', 'laplacian') for o in od['ops']):
+        return 'L=stencil-square'
+    return None
